@@ -461,6 +461,42 @@ Definition download (fuel : nat) (cwd : list name) (rfs : tree) (lcwd : list nam
   download_to fuel cwd rfs lcwd lfs src (final_destination (pname src) dst write_into).
 
 (* ------------------------------------------------------------------ *)
+(* sequences of operations on ONE client session                        *)
+
+(* Client.change_directory(p): CWD p; the server resolves p against the session's cwd and answers 550
+   unless it is a directory.  (p without '.'/'..' parts; the no-argument CDUP form is not modelled.) *)
+Definition r_cwd (cwd : list name) (fs : tree) (p : ppath) : res (list name) :=
+  match lookup fs (resolve cwd p) with
+  | Some (Dir _) => Ok (resolve cwd p)
+  | _ => Fail 550
+  end.
+
+Inductive cop : Type :=
+| OCd (p : ppath)
+| OMkdir (p : ppath)
+| OUpload (nm : name) (src : tree) (dst : ppath) (wi : bool)
+| ORemove (p : ppath).
+
+(* the whole state a client operation can depend on: the server-side cwd of the session and the remote
+   tree.  The client object itself carries NO state between operations in this model. *)
+Definition cstate : Type := (list name * tree)%type.
+
+Definition step (fixed : bool) (st : cstate) (o : cop) : res cstate :=
+  let (cwd, fs) := st in
+  match o with
+  | OCd p => bind (r_cwd cwd fs p) (fun c => Ok (c, fs))
+  | OMkdir p => bind (make_directory cwd fs p) (fun fs' => Ok (cwd, fs'))
+  | OUpload nm src dst wi => bind (upload_gen fixed cwd fs nm src dst wi) (fun fs' => Ok (cwd, fs'))
+  | ORemove p => bind (remove (S (tree_size fs)) cwd fs p) (fun fs' => Ok (cwd, fs'))
+  end.
+
+Fixpoint run_seq (fixed : bool) (st : cstate) (ops : list cop) : res cstate :=
+  match ops with
+  | [] => Ok st
+  | o :: r => bind (step fixed st o) (fun st' => run_seq fixed st' r)
+  end.
+
+(* ------------------------------------------------------------------ *)
 (* harness interface                                                    *)
 
 Fixpoint sx_of_tree (t : tree) : sx :=
@@ -505,6 +541,17 @@ Definition sx_of_res {A} (f : A -> sx) (r : res A) : sx :=
 Definition sx_of_items (l : list item) : sx :=
   L (map (fun it => L [sx_of_ppath (fst it); sx_of_bool (snd it)]) l).
 
+Definition cop_of_sx (s : sx) : cop :=
+  match z_of_sx (nth_sx 0 s) with
+  | 0 => OCd (ppath_of_sx (nth_sx 1 s))
+  | 1 => OMkdir (ppath_of_sx (nth_sx 1 s))
+  | 2 => OUpload (text_of_sx (nth_sx 1 s)) (tree_of_sx (nth_sx 2 s)) (ppath_of_sx (nth_sx 3 s))
+                 (bool_of_sx (nth_sx 4 s))
+  | _ => ORemove (ppath_of_sx (nth_sx 1 s))
+  end.
+
+Definition sx_of_cstate (st : cstate) : sx := L [sx_of_texts (fst st); sx_of_tree (snd st)].
+
 Definition run_clienttree (fixed : bool) (fn : Z) (a : sx) : sx :=
   let cwd := texts_of_sx (nth_sx 0 a) in
   let fs := tree_of_sx (nth_sx 1 a) in
@@ -546,5 +593,9 @@ Definition run_clienttree (fixed : bool) (fn : Z) (a : sx) : sx :=
                 (ppath_of_sx (nth_sx 4 a)) (bool_of_sx (nth_sx 5 a)))
   | 10 => (* which form of upload the source has: 1 = fixed *)
       sx_of_bool fixed
+  | 11 => (* one operation of a session: cwd remote op *)
+      sx_of_res sx_of_cstate (step fixed (cwd, fs) (cop_of_sx (nth_sx 2 a)))
+  | 12 => (* a sequence of operations on one session: cwd remote [op...] *)
+      sx_of_res sx_of_cstate (run_seq fixed (cwd, fs) (map cop_of_sx (list_of_sx (nth_sx 2 a))))
   | _ => sx_err 99
   end.
